@@ -347,6 +347,12 @@ def c06(run):
                     out.append(V("C06/still-active-although-stop-reason", f"metaepoch {s['n']}: deme {did} ({cls}) is still active although {reasons} held at the end of its metaepoch"))
                 if r["active"] and not gsc_true and r.get("lsc_after") is True:
                     out.append(V("C06/still-active-although-lsc-holds-at-end-of-metaepoch", f"metaepoch {s['n']}: deme {did} ({cls}) is still active although its local stop condition ({r.get('lsc_cls')}) holds on the state its metaepoch left behind (it was consulted too early, or its verdict was ignored)"))
+                if (not r["active"]) and r["lsc"] and not gsc_true and r.get("lsc_cls") == "AllChildrenStopped":
+                    # the definition, independently of the condition object (which every deme of the level shares):
+                    # children run before their parent, so their flags after the step are their flags at that time
+                    alive = [c for c in a["children"] if c in post and post[c]["active"]]
+                    if alive or not a["children"]:
+                        out.append(V("C06/stopped-although-its-local-stop-condition-does-not-hold", f"metaepoch {s['n']}: deme {did} was stopped by AllChildrenStopped although its children {alive or '(none)'} are still active"))
                 if not r["active"] and not reasons and cls in ("EADeme", "DEDeme", "SHADEDeme", "LHSDeme", "SobolDeme", "CMADeme", "UserEADeme", "UserDEDeme"):
                     if not (cls == "CMADeme" and r.get("cma_stop") is None):
                         out.append(V("C06/stopped-without-reason", f"metaepoch {s['n']}: deme {did} ({cls}) became inactive although neither its local nor the global stop condition held nor its engine stopped"))
